@@ -228,12 +228,12 @@ def run_unit(u):
     grid, li = u["grid"], u["lt"]
     n = len(grid)
     res = dict(evals=0, nontrivial=0, outcomes={}, fails=[], samples=[])
-    quads = [("middle", 1), ("end", 1), ("middle", 3)] if tier == "quick" else dsm.QUADS
+    quads = [("middle", 1), ("end", 1), ("middle", 3), ("start", 1)] if tier == "quick" else dsm.QUADS
     for kind in dsm_impl.KINDS:
         for ei in range(len(EXTRAS)):
             nlab = len(dsm_impl.labels(EXTRAS[ei]))
             for qi, quad in enumerate(quads):
-                if tier == "quick" and (qi + ei + li + u.get("seed", 0)) % 3 != 0:
+                if tier == "quick" and (qi + ei + li + u.get("seed", 0)) % 3 != 0 and not (qi == 3 and (ei + li) % 2 == 0):
                     continue
                 if tier == "thorough" and ei == 2 and qi % 3 != 0:
                     continue
